@@ -94,7 +94,7 @@ def swalkList (rec : String → SRes) : List String → SRes
     else if r.stop.isSome then { r with pending := r.pending || !ts.isEmpty }
     else
       let rest := swalkList rec ts
-      { trace := r.trace ++ rest.trace, stop := rest.stop, err := rest.err, pending := rest.pending }
+      { trace := r.trace ++ rest.trace, stop := rest.stop, err := rest.err, pending := r.pending || rest.pending }
 
 /-- reference walk of direction `d` of flow `f` from processor `k` -/
 def swalk (f : SFlow) (o : Oracle) (d : Dir) : Nat → String → SRes
